@@ -280,6 +280,17 @@ def pmap(ctx, modname, funcname, items, builddir, procs=None, env=None, chunks=1
     if not items:
         return
     procs = int(os.environ.get("VERIF_PROCS", "0")) or procs or min(16, os.cpu_count() or 1)
+    if not os.environ.get("VERIF_PROCS"):
+        # be a good neighbour on a loaded machine (results do not depend on the pool size:
+        # children are merged in item order)
+        try:
+            load = os.getloadavg()[0]
+        except OSError:
+            load = 0.0
+        if load > 48:
+            procs = min(procs, 4)
+        elif load > 20:
+            procs = min(procs, 8)
     procs = max(1, min(procs, len(items)))
     args = [(modname, funcname, ctx.prop, ctx.tier, ctx.seed, ctx.level, it) for it in items]
     if procs == 1:
